@@ -149,7 +149,7 @@ async def site_owning(r, n) -> list[Case]:
                         got = canon([] if st is None else [st.label])
                     except Exception as exc:
                         got = "multi" if "Multiple" in str(exc) else "exc:" + implkit.classify_exc(exc)
-                    expect = [t for t in trees if (p if p.endswith("/") else p + "/").startswith(t)]
+                    expect = [t for t in trees if p.startswith(t)]
                     out.append(Case("find_owning_static_tree", f"c18 owning {hexs(p)} {hexlist(trees)}", got,
                                     {"path": p, "trees": trees}, ("owner", expect)))
     return out
@@ -292,8 +292,7 @@ async def site_justified(r, n) -> list[Case]:
                 wf.declare_static_files(boot, static)
                 for p in labels + [d + "/" for d in dirs]:
                     got = wf._is_justified_without_node(p, trees)
-                    probe = p if p.endswith("/") else p + "/"
-                    exp = any(probe.startswith(t) for t in trees)
+                    exp = any(p.startswith(t) for t in trees)
                     if p.endswith("/") and not exp:
                         exp = any(t.startswith(p) for t in trees) or bool(under(p, static))
                     # model: inside || (dir && (contains || range nonempty)), composed here from three ops
